@@ -5,7 +5,7 @@ D="${1:-/repo}"
 OUT=$(mktemp /root/.cache/baseline_run.XXXXXX.json)
 export OUT
 trap 'rm -f "$OUT"' EXIT
-cd "$D" && go test -json -vet=off -count=1 -timeout 25m ./... 2>&1 > "$OUT"
+cd "$D" && go test -json -vet=off -count=1 -timeout 25m ${BASELINE_PKGS:-./...} 2>&1 > "$OUT"
 python3 - <<'PY'
 import json, os
 base=json.load(open('/root/.vp/BASELINE.json'))
